@@ -866,6 +866,136 @@ func sizeCase(limit, size int64) {
 	}
 }
 
+// ---------- referrers through the tag schema ----------
+
+// TagSchema is one run of Referrers against a registry without referrers API.
+type TagSchema struct {
+	Op       string         `json:"op"` // "tagschema"
+	Items    []fakereg.Item `json:"items"`
+	AT       string         `json:"at"`
+	Limit    int64          `json:"limit"`
+	Absent   bool           `json:"absent"`   // the referrers tag does not exist
+	Size     int            `json:"size"`     // pad the index to this size (0: natural)
+	NoDigest bool           `json:"nodigest"` // registry omits Docker-Content-Digest
+	CbFail   int            `json:"cbfail"`
+}
+
+func tagSchemaCase(ts *TagSchema) {
+	ts.Op = "tagschema"
+	id := run.NewID()
+	reg := fakereg.New(host)
+	reg.Decide = func(*fakereg.Exchange) fakereg.Decision { return fakereg.Decision{NoDigest: ts.NoDigest} }
+	ms := make([]ocispec.Descriptor, len(ts.Items))
+	for i, it := range ts.Items {
+		ms[i] = ocispec.Descriptor{MediaType: ocispec.MediaTypeImageManifest, Digest: digest.Digest(it.Name), Size: 2, ArtifactType: it.ArtifactType}
+	}
+	idx := ocispec.Index{MediaType: ocispec.MediaTypeImageIndex, Manifests: ms}
+	idx.SchemaVersion = 2
+	doc, _ := json.Marshal(idx)
+	if ts.Size > len(doc) {
+		doc = append(append(doc[:len(doc)-1:len(doc)-1], bytes.Repeat([]byte{' '}, ts.Size-len(doc))...), '}')
+	}
+	if !ts.Absent {
+		reg.Manifests["repo@"+subject.Algorithm().String()+"-"+subject.Encoded()] = fakereg.Manifest{MediaType: ocispec.MediaTypeImageIndex, Content: doc}
+	}
+	r := &remote.Repository{Reference: registry.Reference{Registry: host, Repository: "repo"}, PlainHTTP: true,
+		Client: reg.Client(), MaxMetadataBytes: ts.Limit}
+	r.SetReferrersCapability(false)
+	var pages [][]fakereg.Item
+	desc := ocispec.Descriptor{MediaType: ocispec.MediaTypeImageManifest, Digest: subject, Size: 7}
+	err := r.Referrers(context.Background(), desc, ts.AT, func(ds []ocispec.Descriptor) error {
+		p := make([]fakereg.Item, len(ds))
+		for i, d := range ds {
+			p[i] = fakereg.Item{Name: d.Digest.String(), ArtifactType: d.ArtifactType}
+		}
+		pages = append(pages, p)
+		if ts.CbFail == len(pages)-1 {
+			return errInjected
+		}
+		return nil
+	})
+	outcome := classify(err)
+	if errors.Is(err, errdef.ErrSizeExceedsLimit) {
+		outcome = "ErrSize"
+	}
+	pt := make([]string, len(pages))
+	for i, p := range pages {
+		pt[i] = itemsTok(p)
+	}
+	ps := "_"
+	if len(pt) > 0 {
+		ps = strings.Join(pt, ";")
+	}
+	found := "1"
+	if ts.Absent {
+		found = "0"
+	}
+	run.Case(id, fmt.Sprintf("X %d %s %d %s %s %d", ts.Limit, found, len(doc), itemsTok(ts.Items), common.Hex(ts.AT), ts.CbFail),
+		fmt.Sprintf("P %d %s O %s", len(pages), ps, outcome))
+	run.Count("tagschema_" + outcome)
+	run.Nontrivial(fmt.Sprintf("X%v", *ts))
+	// oracle
+	fail := func(sig, msg string) { run.OracleFail(id, sig, "tag schema: "+msg, ts) }
+	var expected []fakereg.Item
+	if !ts.Absent {
+		for _, it := range ts.Items {
+			if ts.AT == "" || it.ArtifactType == ts.AT {
+				expected = append(expected, it)
+			}
+		}
+	}
+	for i, x := range reg.Log {
+		if x.Status == 200 && int64(x.BytesRead()) > effLimit(ts.Limit) {
+			fail("over-read", fmt.Sprintf("response %d: %d bytes consumed, MaxMetadataBytes %d (effective %d)", i, x.BytesRead(), ts.Limit, effLimit(ts.Limit)))
+		}
+	}
+	got := flat(pages)
+	switch {
+	case !ts.Absent && int64(len(doc)) > effLimit(ts.Limit):
+		if err == nil {
+			fail("truncated-accepted", fmt.Sprintf("index of %d bytes, limit %d, listing succeeded with %s", len(doc), effLimit(ts.Limit), showNames(got)))
+		}
+		if len(pages) != 0 {
+			fail("truncated-result", fmt.Sprintf("index of %d bytes, limit %d, delivered %s", len(doc), effLimit(ts.Limit), showNames(got)))
+		}
+	case ts.CbFail == 0 && len(expected) > 0:
+		if !errors.Is(err, errInjected) || len(pages) != 1 {
+			fail("callback-error-lost", fmt.Sprintf("callback failed, listing returned %v after %d callbacks", err, len(pages)))
+		}
+	default:
+		if err != nil {
+			fail("spurious-error", fmt.Sprintf("listing failed: %v", err))
+		} else if !sameItems(got, expected) {
+			fail("exactly-once", fmt.Sprintf("at=%q delivered %s, index holds %s", ts.AT, showNames(got), showNames(expected)))
+		}
+	}
+	for _, p := range pages {
+		if len(p) == 0 {
+			fail("empty-page", "callback received an empty page")
+		}
+	}
+}
+
+func genTagSchema(r *common.Rand) {
+	ts := &TagSchema{Items: genItems(r, "R", r.Intn(8)), CbFail: -1, NoDigest: r.Bool(), Absent: r.Chance(1, 10)}
+	if r.Chance(2, 3) {
+		ts.AT = common.Pick(r, artifactTypes[:3])
+	}
+	if r.Chance(1, 8) {
+		ts.CbFail = 0
+	}
+	switch r.Intn(4) {
+	case 0:
+		ts.Limit = int64(3000 + r.Intn(100))
+		ts.Size = int(ts.Limit) - 1 + r.Intn(3)
+	case 1:
+		ts.Limit = int64(1 + r.Intn(300))
+	case 2:
+		ts.Limit = -int64(r.Intn(2))
+	}
+	tagSchemaCase(ts)
+}
+
 // ---------- content/oci Tags ----------
 
 type ociOp struct {
@@ -1061,6 +1191,23 @@ func replay(cases []map[string]string) {
 			l, _ := strconv.ParseInt(c["limit"], 10, 64)
 			s, _ := strconv.ParseInt(c["size"], 10, 64)
 			sizeCase(l, s)
+		case "tagschema":
+			var ts TagSchema
+			raw := map[string]json.RawMessage{}
+			for k, v := range c {
+				switch k {
+				case "op", "at":
+					b, _ := json.Marshal(v)
+					raw[k] = b
+				default:
+					raw[k] = json.RawMessage(v)
+				}
+			}
+			js, _ := json.Marshal(raw)
+			if err := json.Unmarshal(js, &ts); err != nil {
+				panic(fmt.Sprintf("replay: %v in %s", err, js))
+			}
+			tagSchemaCase(&ts)
 		case "oci":
 			var ops []ociOp
 			json.Unmarshal([]byte(c["ops"]), &ops)
@@ -1133,6 +1280,15 @@ func main() {
 			mx = run.Scale(40, 90)
 		}
 		listCase(genScenario(r, mx))
+	}
+	// referrers tag schema
+	for i := 0; i < run.Scale(300, 6000); i++ {
+		genTagSchema(r)
+	}
+	for _, sz := range []int{defaultMax, defaultMax + 1} {
+		for _, nd := range []bool{false, true} {
+			tagSchemaCase(&TagSchema{Items: genItems(r, "R", 3), Size: sz, NoDigest: nd, CbFail: -1})
+		}
 	}
 	// content/oci
 	for i := 0; i < run.Scale(150, 4000); i++ {
